@@ -297,6 +297,17 @@ def run(ctx: Ctx, tier: str) -> Result:
         res.ok("C08.AUTH", {"provider asked in": bm.qname})
     else:
         res.fail(Finding("C08.AUTH", bm.qname, "<provider is not None -> provide()>", bm.loc(), "the provider's provide() is not called exactly when a provider is configured"))
+    # the cache is filled exactly when it is empty
+    for sf, v in stores:
+        if sf is not md:
+            continue
+        st = paths.stmt_of(p, v)
+        cs_ = [(norm(c_), pol) for c_, pol in paths.enclosing_conditions(p, st, sf)]
+        if cs_ in ([], [("self.%s is None" % fld, True)], [("not self.%s" % fld, True)], [("self.%s is not None" % fld, False)]):
+            res.ok("C08.AUTH", {"metadata built when not cached yet": cs_})
+        else:
+            res.fail(Finding("C08.AUTH", sf.qname, st, sf.loc(st), "the metadata is built only when `%s`: requests go out with an empty (None) metadata and no credentials" % (
+                " and ".join(("" if pol else "not ") + c_ for c_, pol in cs_))))
     # computed before cached: a value stored into the cache field while the provider has still to be asked stays
     # cached when the provider fails (or is read by another thread meanwhile): later requests go out without auth
     for sf, v in stores:
